@@ -257,6 +257,29 @@ func GenOwn(seed int64, idx int, tier string) *Plan {
 	}
 	hostsets := [][]string{{"h.test"}, {"h.test", "g.test"}, {"g.test"}, {"*.test"}, {}}
 	pathsets := [][]string{{}, {"/api"}, {"/", "/api"}}
+	if idx%5 == 4 {
+		// a long-running command on a service (redeploy or rollout deploy whose target needs a while to become healthy)
+		// overlapped by "remove that service, give its host to another one": the late install must be refused
+		hs := hostsets[rng.Intn(2)]
+		slow := "rollout_deploy"
+		if rng.Intn(3) == 0 {
+			slow = "deploy"
+		}
+		p.Targets["t1"] = probeScriptHealthy(rng)
+		p.Targets["t2"] = probeScriptAfterFailures(rng, 1+rng.Intn(2))
+		p.Targets["t3"] = probeScriptHealthy(rng)
+		c2 := Cmd{ID: "c2", Kind: slow, Svc: "A", Targets: []string{"t2"}, DeployTimeoutMs: 4500, DrainTimeoutMs: 500}
+		if slow == "deploy" {
+			c2.Hosts = hs
+		}
+		p.Lanes = [][]Cmd{
+			{{ID: "c1", Kind: "deploy", Svc: "A", Hosts: hs, Targets: []string{"t1"}, DeployTimeoutMs: 2500, DrainTimeoutMs: 500}, c2},
+			{{ID: "c3", Kind: "remove", Svc: "A", After: "c1", WaitMs: offGrid(rng, 150, 600)},
+				{ID: "c4", Kind: "deploy", Svc: "B", Hosts: hs, Targets: []string{"t3"}, DeployTimeoutMs: 2500, DrainTimeoutMs: 500, WaitMs: offGrid(rng, 10, 300)}},
+		}
+		p.Clients = [][]Req{{{ID: "r1", Svc: "?", Host: "h.test", Path: "/", Kind: "plain", WaitMs: offGrid(rng, 3000, 5000)}}}
+		return p
+	}
 	tn, cn := 0, 0
 	names := []string{"A", "B", "C"}
 	nLanes := 2 + rng.Intn(2)
